@@ -493,7 +493,7 @@ class Verdict:
             desc, rep = self.violations[0]
             path = os.path.join(rdir, "%s-violation.json" % self.prop)
             json.dump({"property": self.prop, "what": desc, "replay": rep, "more": len(self.violations) - 1,
-                       "others": [v[0] for v in self.violations[1:6]]}, open(path, "w"), indent=1)
+                       "others": [v[0] for v in self.violations[1:200]]}, open(path, "w"), indent=1)
             print("VIOLATION property=%s replay=%s" % (self.prop, path))
             rc = 1
         elif self.broken:
